@@ -291,7 +291,7 @@ def gen_c06(rng, idx, tier, faults):
         sched.append(rng.randint(sched[-1] + 1, cap))
     calibrated = "full_fraction" not in p
     nt = int(p.get("n_trial_calculation", 4))
-    all128 = tier == "thorough" and faults and calibrated and idx % 25 == 0
+    all128 = faults and calibrated and idx % (25 if tier == "thorough" else 100) == 0
     if all128:
         lanes = [{"mode": "force", "bits": [(b >> i) & 1 for i in range(7)], "n_trial": nt, "seed": 1} for b in range(128)]
     elif not calibrated:
@@ -388,7 +388,7 @@ def _c08_object(rng, o, heap, faults, exhaustive=None):
 
 def gen_c08(rng, idx, tier, faults):
     heap, ops = {}, []
-    exhaustive = tier == "thorough" and idx % 20 == 0
+    exhaustive = idx % (20 if tier == "thorough" else 200) == 0
     if exhaustive:
         cls, info, fam, xs, xn, yn, n_from, p, limit = _c08_object(rng, 0, heap, faults, exhaustive=True)
         n = min(6, limit)
@@ -629,11 +629,10 @@ class SelectorScenario:
             "C06": ["voronoi_sparse_update_with_pruned_candidates", "voronoi_full_update"],
             "C08": ["compared_after_warm_start", "warm_start_on_unfitted_rejected"],
         }[self.pid]
-        if tier == "thorough":
-            req = req + {
-                "C06": ["all_128_calibration_outcomes_forced_on_one_input"],
-                "C08": ["every_increasing_schedule_up_to_6_on_one_input"],
-            }.get(self.pid, [])
+        if self.pid == "C06":
+            req = req + ["all_128_calibration_outcomes_forced_on_one_input"]
+        if self.pid == "C08":
+            req = req + ["every_increasing_schedule_up_to_6_on_one_input"]
         return req
 
     def real_components(self):
